@@ -19,6 +19,10 @@ def run(rep, tier, seed):
         scripts.append(sessions.gen_session(rng, conf, nops, file_io=True) + ["drop_all", "list 0", "unmount"])
     for i in range(6 if tier == "quick" else 100):
         scripts.append(sessions.full_dir_session(rng, "root" if i % 3 else "chain"))
+    # directories growing over non-adjacent clusters, entries straddling / starting at cluster boundaries, files re-opened and modified
+    heavy = [c for c in confs if c[0] in (("fat12-small", "fat12-1fat") if tier == "quick" else ("fat12-small", "fat12-1fat", "fat16-min", "fat32-min"))]
+    for i in range(4 if tier == "quick" else 80):
+        scripts.append(sessions.dir_heavy_session(rng, heavy[i % len(heavy)], nfiles=rng.range(8, 16)))
     judged = sessions.run_judged(scripts, flags=("wf", "tree"), shards=16)
     checked_states = 0
     for jd in judged:
